@@ -207,10 +207,12 @@ def conformance(ctx, xjson, progs, meta):
             if e["k"] == "CALL" and e["r"].lstrip("?") in loop_only:
                 leads.append("%s calls %s (line %s)" % (fn, e["r"], e.get("line")))
     rep = {"compared": compared, "variant": variant, "loop_functions": len(loop_funcs), "static_ownership_leads": leads}
-    if problems:
-        raise vlib.MachineryError("Locks.tla does not transcribe the sources any more (the SPEC is out of date; not a verdict):\n  - "
-                                  + "\n  - ".join(problems))
+    rep["problems"] = problems
     return fixed, rep
+
+
+def stale_message(problems):
+    return ("Locks.tla does not transcribe the sources any more (the SPEC is out of date; not a verdict):\n  - " + "\n  - ".join(problems))
 
 
 def parse_printed(items):
@@ -315,7 +317,7 @@ def parse_dump(txt):
                 break     # running / waiting inside rain code below any primitive we know: not a lock wait
         for f in frames:
             if f.startswith(RAIN + "torrent."):
-                g["at"] = f[len(RAIN):]
+                g["at"] = re.sub(r"(\.func\d+|\.\d+|-fm)+$", "", f[len(RAIN):])   # closures are inlined or not, build dependent
                 break
         gs.append(g)
     return gs
@@ -405,6 +407,7 @@ def parse_races(txt):
 def norm_fn(f):
     """github.com/cenkalti/rain/v2/torrent.(*torrent).dialAddresses.func1 -> ('torrent.dialAddresses', display)"""
     d = f[len(RAIN):] if f.startswith(RAIN) else f
+    d = re.sub(r"-fm$", "", d)                      # method value wrapper
     base = re.sub(r"(\.func\d+|\.gowrap\d+|\.\d+)+$", "", d)
     m = re.match(r"^torrent\.\(\*?(\w+)\)\.(\w+)$", base)
     if m:
@@ -431,6 +434,7 @@ def canon_side(frames, loop_funcs):
             nz = [f for f in frames if not f.startswith("runtime.")]
             return "ext", "extern:" + (nz[0] if nz else "?")
         return None, None
+    rain = [re.sub(r"-fm$", "", f) for f in rain]
     inner = next((f for f in rain if f.startswith(RAIN + "torrent.")), rain[0])[len(RAIN):]
     if any(f.startswith(RAIN + "torrent.(*torrent).run") for f in frames):
         return "loop", inner
@@ -449,11 +453,16 @@ def canon_side(frames, loop_funcs):
     return "ext", inner
 
 
+def strip_closure(f):
+    return re.sub(r"(\.func\d+|\.gowrap\d+|\.\d+|-fm)+$", "", f) if f else f
+
+
 def race_events(txt, loop_funcs):
     evs, harness = {}, []
     for a, b in parse_races(txt):
         ra, fa = canon_side(a["frames"], loop_funcs)
         rb, fb = canon_side(b["frames"], loop_funcs)
+        fa, fb = strip_closure(fa), strip_closure(fb)      # closures are inlined or not depending on the build
         if fa is None or fb is None:
             # one side never enters rain code: rain memory touched from the harness, or a harness-only race
             if fa is None and fb is None:
@@ -632,6 +641,11 @@ def run(ctx):
     items, _ = ctx.tlc_gen("MC_LocksPrint", "MC_LocksPrint.cfg", timeout=600)
     progs, meta = parse_printed(items)
     fixed, rep = conformance(ctx, xjson, progs, meta)
+    # A mismatch means the spec must be brought up to date (exit 2 at the end). The real session is still stressed first:
+    # an observed lock-up or race is a verdict of its own, whatever the state of the spec.
+    stale = stale_message(rep["problems"]) if rep["problems"] else None
+    if stale:
+        vlib.log("WARNING: " + stale)
     code = Code(xjson)
     loop_funcs = {f.replace("torrent.", "torrent.", 1) for f in (code.reach("torrent.run") - {"torrent.run"})}
     ctx.extra["conformance"] = rep
@@ -641,9 +655,10 @@ def run(ctx):
     # ---- 2. design level: the repaired transcription has no lock-up -----------------------------------------------------
     allfix = set(meta["fixnames"])
     mc_to = 1500
-    ok, out, _ = tlc_with_fixed(ctx, "MC_Locks", "MC_Locks_fixed.cfg", allfix, mc_to)
-    if not ok:
-        raise vlib.MachineryError("the repaired design (Fixed = all) has a lock-up or TLC failed:\n" + out[-4000:])
+    if fixed != allfix or not quick:
+        ok, out, _ = tlc_with_fixed(ctx, "MC_Locks", "MC_Locks_fixed.cfg", allfix, mc_to)
+        if not ok:
+            raise vlib.MachineryError("the repaired design (Fixed = all) has a lock-up or TLC failed:\n" + out[-4000:])
     if not quick:
         for cfg in ("MC_Locks_fixed_all.cfg", "MC_Locks_fixed_t.cfg", "MC_Locks_live.cfg"):
             ok, out, _ = tlc_with_fixed(ctx, "MC_Locks", cfg, allfix, 3000)
@@ -799,6 +814,8 @@ def run(ctx):
             continue
         seen.add((tag, sig))
         ctx.violation(tag, sig, what, d)
+    if stale:
+        raise vlib.MachineryError(stale)
 
 
 def _drop_empty_skip(args):
@@ -821,7 +838,7 @@ if __name__ == "__main__":       # development helper:  python3 props/c20.py <ex
         if ln.startswith('"@@'):
             its.append(json.loads(json.loads(ln)[2:]))
     pg, mt = parse_printed(its)
-    try:
-        print(conformance(None, x, pg, mt))
-    except vlib.MachineryError as ex:
-        print(ex)
+    fx, rp = conformance(None, x, pg, mt)
+    print(sorted(fx), rp["compared"], rp["static_ownership_leads"])
+    if rp["problems"]:
+        print(stale_message(rp["problems"]))
